@@ -55,6 +55,14 @@ CHECKS = {
               'running the defaults through the real validation for all even widths, all even heights and 2000 random sizes.'),
         note=('Trusted: Coq kernel (vm_compute for the evaluated examples); translators/cast.py+tr_defaults.py; extraction + OCaml driver; gcc. "Yields identical output when encoding" is covered only through the identity '
               'of the returned configuration (the encoder reads nothing else from that memory); acceptance for every size is swept on the real code, proved only for the listed sizes.')),
+    'C03': dict(
+        category='other', design_ref='DESIGN.md §6 C03',
+        technique='Coq-verified monitor (decision procedure proved equivalent to the specification) applied to real API histories + Coq theorem for the packet-ordering mechanism',
+        text=('check_c03 is proved (Coq) sound and complete for C03_spec: exactly N packets, k-th packet pts/dts of the k-th submitted picture, EOS on exactly the last packet, one recon picture per display position. '
+              'It is extracted and applied to histories of the real library over stream lengths around mini-GOP / intra-period boundaries x hierarchical levels 0..4 x intra periods x refresh types x pacing; '
+              'incomplete encodes (watchdog) and packets after EOS are violations. The ordering mechanism (hierarchical decode order + undisplayed-frame stack => display order) is proved for every depth and length.'),
+        note=('The universally quantified claim is proved only for the mechanism model; that picture decision / packetization implement it is observed on the scenarios run (partial). Trusted: Coq kernel, extraction + OCaml driver, '
+              'harness/scn/svt_scn.c, watchdog timing. An EOS flag set on a buffer that also carries a picture is outside the stated protocol and not exercised.')),
 }
 
 NOT_BUILT_REASON = 'check not built yet in this development (work in progress); no claim is made'
